@@ -768,8 +768,64 @@ def _keyed_cases(tier):
     return c11.keyed_cases(tier)
 
 
+# ------------------------------------------------------------------------------------------ deep histories
+@st.composite
+def _deep_cases(draw, tier="quick"):
+    """One contract (plus a bystander) receiving tens of thousands of quotes: nothing about the statement depends on how
+    long a history already is. Prices follow a deterministic sawtooth derived from the case, with repeats."""
+    return {"n": draw(st.sampled_from([20000, 33000, 40000, 70000])), "period": draw(st.integers(2, 97)),
+            "repeat_every": draw(st.sampled_from([0, 3, 10])), "spread": draw(st.sampled_from([0.0, 0.25, 1.0])),
+            "probe": draw(st.lists(st.integers(0, 10 ** 6), min_size=3, max_size=8)), "kind": draw(st.sampled_from(["etf", "es"]))}
+
+
+def _deep(case):
+    from datetime import datetime, timedelta
+    from tradingenv.contracts import ETF, ES
+    from tradingenv.events import EventNBBO
+    from tradingenv.exchange import Exchange
+    res = Result()
+    ex = Exchange()
+    c = ETF("DEEP") if case["kind"] == "etf" else ES(2030, 6)
+    other = ETF("OTHER")
+    t0 = datetime(2020, 1, 1)
+    n, per, rep = case["n"], case["period"], case["repeat_every"]
+    model = []
+    ex.process_EventNBBO(EventNBBO(t0, other, 7.0, 8.0, 1.0, 1.0))
+    for k in range(n):
+        j = k - 1 if (rep and k % rep == rep - 1 and k > 0) else k          # now and then the very same quote again
+        bid = 100.0 + (j % per) * 0.5
+        ask = bid + case["spread"]
+        t = t0 + timedelta(seconds=k)
+        ex.process_EventNBBO(EventNBBO(t, c, bid, ask, 10.0 + (j % 7), 20.0))
+        model.append((t, bid, ask))
+    h = ex[c].history
+    for key in ("time", "bid_price", "ask_price", "mid_price", "bid_size", "ask_size"):
+        if len(h[key]) != n:
+            res.fail("after %d accepted quotes the history of the contract lists %d records (%s)" % (n, len(h[key]), key))
+            return res
+    for i in sorted(set([0, 1, n - 1] + [p % n for p in case["probe"]])):
+        t, bid, ask = model[i]
+        got = (h["time"][i], h["bid_price"][i], h["ask_price"][i], h["mid_price"][i])
+        if got != (t, bid, ask, (bid + ask) / 2):
+            res.fail("history record %d of %d is %r, the %d-th accepted quote was %r" % (i, n, got, i, (t, bid, ask, (bid + ask) / 2)))
+            return res
+    b = ex[c]
+    if (b.bid_price, b.ask_price) != (model[-1][1], model[-1][2]):
+        res.fail("book shows %r : %r after %d quotes, last quote was %r : %r" % (b.bid_price, b.ask_price, n, model[-1][1], model[-1][2]))
+    if len(ex[other].history["time"]) != 1 or ex[other].bid_price != 7.0:
+        res.fail("a contract that received one quote shows %d records / bid %r" % (len(ex[other].history["time"]), ex[other].bid_price))
+    res.nontrivial = n > 32768
+    res.tag("deep:%d-quotes" % n)
+    if rep:
+        res.tag("identical-consecutive-quotes")
+    return res
+
+
 PARTS = [Part("histories", strategy=lambda tier: histories(tier), run=run_history, quick=6000, thorough=80000),
-         Part("keyed-env", strategy=_keyed_cases, run=_keyed, quick=800, thorough=20000)]
+         Part("keyed-env", strategy=_keyed_cases, run=_keyed, quick=800, thorough=20000),
+         Part("deep", strategy=_deep_cases, run=_deep, quick=24, thorough=400)]
+RULE = RULE + (" deep: one contract receives 20000-70000 accepted quotes (with identical consecutive quotes now and then); its history must list "
+               "every one of them in order (length, probed records, head and tail), the book shows the last one, a bystander contract is untouched.")
 
 
 # ---------------------------------------------------------------------------------------------------
